@@ -275,7 +275,6 @@ def apply_exit_case(interp, base, case, evar, nframe, pre_oid, node):
         elif kind == "var":
             base.frames[d[1]].env[d[2]] = imp(d[3])
     g = case_guard(case)
-    interp.ctx.set_fact(("exitcase", id(case)), True)
     interp.log("loop.exit", node, guard=g, sig=case.sig[0], evar=evar)
 
 
